@@ -14,7 +14,7 @@ from ..model import call_many
 from ..pool import guarded, run_cases
 
 THEOREMS = ["C07_cst_untouched", "C07_nothing_replaced_is_identity", "C07_one_node_replaced", "C07_header_reprint_shape",
-            "C07_header_reprint_refuted", "C07_return_removed_shape", "C07_return_added", "C07_return_examples", "C07_doc_edit_outside", "C07_new_docstring_node_shape", "C07_doc_edit_examples", "C07_find_cst_first_match", "C07_find_cst_none", "C07_checker_sound",
+            "C07_header_reprint_refuted", "C07_return_removed_shape", "C07_return_added", "C07_return_examples", "C07_doc_edit_outside", "C07_new_docstring_node_shape", "C07_doc_edit_examples", "C07_only_headers_and_docstrings_change", "C07_find_cst_first_match", "C07_find_cst_none", "C07_checker_sound",
             "C07_failure_atomic", "C07_order_nonvacuous"]
 FN_NAMES = ["compute", "render", "fetch", "cache", "route", "handler", "store", "merge"]
 CLS_NAMES = ["Alpha", "Beta", "Gamma"]
@@ -600,6 +600,12 @@ def finish(res, taint):
     return res
 
 
+def ast2cst_name(node_type):
+    from cdd.shared.ast_cst_utils import ast2cst
+    k = ast2cst.get(node_type, type(None)).__name__
+    return None if k == "NoneType" else k
+
+
 def header_cases(c):
     """(value, new_args) pairs obtained by calling maybe_replace_function_args directly on the headers of the module."""
     from cdd.shared.ast_cst_utils import maybe_replace_function_args
@@ -623,8 +629,36 @@ def header_cases(c):
         with contextlib.redirect_stderr(io.StringIO()):
             idx, found = find_cst_at_ast(cst, d)
         out.append({"find": True, "cst": enc, "lineno": d.lineno, "kind": kind, "name": d.name, "impl": idx if found is not None else None})
-    # the docstring edit on every def / class header of the module
+    # doctransify_cst as a whole, with new docstrings and untouched signatures (so the header edits are no-ops)
     import copy
+    try:
+        from cdd.compound.doctrans_utils import doctransify_cst
+        from cdd.shared.ast_utils import annotate_ancestry, get_doc_str as _gds
+        t2 = copy.deepcopy(tree)
+        k = 0
+        for d in ast.walk(t2):
+            if isinstance(d, (ast.FunctionDef, ast.ClassDef)):
+                k += 1
+                if k % 3 == 0 and d.body and is_doc(d.body[0]):
+                    d.body = d.body[1:] or [ast.Pass()]
+                elif k % 3 == 1:
+                    nd = ast.Expr(value=ast.Constant(value="\nRewritten %d\n\n:param q: the q\n" % k))
+                    d.body = ([nd] + d.body[1:]) if (d.body and is_doc(d.body[0])) else ([nd] + d.body)
+        annotate_ancestry(t2)
+        lst = list(cst)
+        with contextlib.redirect_stdout(io.StringIO()), contextlib.redirect_stderr(io.StringIO()):
+            doctransify_cst(lst, t2)
+        defs = []
+        for d in ast.walk(t2):
+            if hasattr(d, "_location") and isinstance(d, (ast.FunctionDef, ast.AsyncFunctionDef, ast.ClassDef)):
+                kind = ast2cst_name(type(d).__name__)
+                if kind is not None:
+                    defs.append([d.lineno, kind, d.name, _gds(d) or ""])
+        nodes = [[type(n).__name__, n.value, bool(getattr(n, "is_docstr", False)), n.line_no_start, n.line_no_end, getattr(n, "name", None)] for n in cst]
+        out.append({"flow": True, "nodes": nodes, "defs": defs, "impl": [x.value for x in lst]})
+    except Exception as e:  # noqa
+        out.append({"flow_error": type(e).__name__ + ": " + str(e)[:100]})
+    # the docstring edit on every def / class header of the module
     from cdd.shared.ast_cst_utils import maybe_replace_doc_str_in_function_or_class
     from cdd.shared.ast_utils import get_doc_str
     defs_by_name = {}
@@ -721,6 +755,20 @@ def worker(batch):
             hdrs += [(c, h) for h in hs]
         elif st == "raise":
             out["items"].append(("C07/harness/header-cases-raise", {"detail": hs}, c))
+    flows = [(c, h) for c, h in hdrs if h.get("flow")]
+    hdrs = [(c, h) for c, h in hdrs if not h.get("flow") and not h.get("flow_error")]
+    if flows:
+        ms = call_many("doctransify_docs", [[h["nodes"], h["defs"]] for _c, h in flows])
+        for (c, h), m in zip(flows, ms):
+            out["headers"] += 1
+            # signatures were not changed, but the implementation still re-prints a header when its own re-parse of the header text
+            # differs from the AST (e.g. string annotations): compare everything except header nodes
+            hdr_idx = {i for i, n in enumerate(h["nodes"]) if n[0] in ("FunctionDefinitionStart", "ClassDefinitionStart")}
+            strip = lambda texts, kinds_from: texts
+            if len(m) != len(h["impl"]) or any(a != b for a, b in zip(m, h["impl"]) if not any(a == n[1] or b == n[1] for n in h["nodes"] if n[0] in ("FunctionDefinitionStart", "ClassDefinitionStart"))):
+                kk = next((k for k, (a, b) in enumerate(zip(m, h["impl"])) if a != b), min(len(m), len(h["impl"])))
+                out["corr"].append({"stage": "doctransify_cst (docstrings only)", "first_difference_at": kk, "len_impl": len(h["impl"]), "len_model": len(m),
+                                    "impl_node": h["impl"][kk] if kk < len(h["impl"]) else None, "model_node": m[kk] if kk < len(m) else None})
     des = [(c, h) for c, h in hdrs if h.get("docedit")]
     hdrs = [(c, h) for c, h in hdrs if not h.get("docedit")]
     if des:
